@@ -3,8 +3,14 @@
 package blockchain
 
 import (
+	"errors"
+
+	"github.com/kardiachain/go-kardia/kai/kaidb/memorydb"
+	"github.com/kardiachain/go-kardia/kai/rawdb"
 	"github.com/kardiachain/go-kardia/kai/state/snapshot"
 	"github.com/kardiachain/go-kardia/lib/common"
+	"github.com/kardiachain/go-kardia/lib/crypto"
+	"github.com/kardiachain/go-kardia/trie"
 )
 
 // Access only (C06). Nothing in the repository calls these and they decide nothing.
@@ -32,4 +38,62 @@ func (bc *BlockChain) VerifC06FlattenSnapshot(root common.Hash) error {
 		return nil
 	}
 	return bc.snaps.Cap(root, 0)
+}
+
+// VerifC06HoldSnapshotGeneration puts the node into the state "snapshot is being (re)generated and the generator has not
+// covered any account yet", deterministically: the chain's snapshot tree is replaced by one over the SAME database whose
+// generator is given a node database that does not contain the head root, so it stops at its first step ("Trie missing,
+// state snapshotting paused", generate.go) with an empty generation marker; every account / slot read of the disk layer
+// then answers ErrNotCoveredYet, as on a production node (SnapshotWait false) whose background generation has not reached
+// the account. Construction only (public snapshot.New / Rebuild); decides nothing.
+func (bc *BlockChain) VerifC06HoldSnapshotGeneration() error {
+	if bc.snaps == nil {
+		return errors.New("chain has no snapshot tree")
+	}
+	root := rawdb.ReadAppHash(bc.db, bc.CurrentBlock().Height())
+	snapshot.VerifC06Abandon(bc.snaps)
+	// a FIRST generation: no snapshot data in the database yet (with the data of a finished snapshot still present the
+	// generator would re-validate it against the root by range proof and finish without ever opening the trie)
+	batch := bc.db.NewBatch()
+	for _, pl := range []struct {
+		prefix []byte
+		n      int
+	}{{rawdb.SnapshotAccountPrefix, 1 + common.HashLength}, {rawdb.SnapshotStoragePrefix, 1 + 2*common.HashLength}} {
+		it := bc.db.NewIterator(pl.prefix, nil)
+		for it.Next() {
+			if len(it.Key()) == pl.n {
+				batch.Delete(append([]byte{}, it.Key()...))
+			}
+		}
+		it.Release()
+	}
+	rawdb.DeleteSnapshotRoot(batch)
+	rawdb.DeleteSnapshotJournal(batch)
+	rawdb.DeleteSnapshotGenerator(batch)
+	if err := batch.Write(); err != nil {
+		return err
+	}
+	snaps, err := snapshot.New(snapshot.Config{CacheSize: bc.cacheConfig.SnapshotLimit, AsyncBuild: true}, bc.db, trie.NewDatabase(memorydb.New()), root)
+	if err != nil {
+		return err
+	}
+	if !snapshot.VerifC06Generating(snaps) {
+		snaps.Rebuild(root)
+	}
+	bc.snaps = snaps
+	return nil
+}
+
+// VerifC06SnapshotProbe reports whether the snapshot is still being generated and whether an account read at the head
+// answers ErrNotCoveredYet (public Tree.Snapshot / Snapshot.Account).
+func (bc *BlockChain) VerifC06SnapshotProbe(addr common.Address) (generating, notCovered bool) {
+	if bc.snaps == nil {
+		return false, false
+	}
+	generating = snapshot.VerifC06Generating(bc.snaps)
+	if s := bc.snaps.Snapshot(rawdb.ReadAppHash(bc.db, bc.CurrentBlock().Height())); s != nil {
+		_, err := s.Account(crypto.Keccak256Hash(addr.Bytes()))
+		notCovered = errors.Is(err, snapshot.ErrNotCoveredYet)
+	}
+	return generating, notCovered
 }
